@@ -1,15 +1,19 @@
 #!/bin/sh
 # re-run every kept seeded change against the current checks (quick tier, no test suite).
-# A patch that still applies to /repo HEAD is evaluated there, otherwise on the commit it was written against.
+# A patch that still applies to /repo HEAD *and still breaks its demo there* is evaluated on HEAD,
+# otherwise on the commit it was written against (a later repair may have made it benign).
 cd "$(dirname "$0")/.."
-for d in seeded/*/; do
-  n=$(basename "$d"); p=${n%-*}
-  if git -C /repo apply --check "$PWD/$d/patch.diff" 2>/dev/null; then opt=--head; else opt=; fi
-  /venv/bin/python tools/seeded_eval.py "$PWD/$d" "$p" "$n" --no-tests $opt 2>&1 | /venv/bin/python -c "
-import sys,json
+show='import sys,json
 t=sys.stdin.read()
 try:
-    m=json.loads(t[t.index('{'):]); print(m['name'],'base',m['repo_head'][:7],{k:(v['detected'],v['wall_s']) for k,v in m['checks'].items()})
-except Exception as e: print('ERR','$n',t[-300:])
-"
+    m=json.loads(t[t.index("{"):]); print(m["name"],"base",m["repo_head"][:7],"demo",m["demo_clean_exit"],m["demo_mutant_exit"],{k:(v["detected"],v["wall_s"]) for k,v in m["checks"].items()})
+    sys.exit(0 if m["confirmed"] else 3)
+except Exception as e: print("ERR",t[-300:]); sys.exit(4)'
+for d in ${@:-seeded/*/}; do
+  n=$(basename "$d"); p=${n%-*}
+  if git -C /repo apply --check "$PWD/seeded/$n/patch.diff" 2>/dev/null; then
+    /venv/bin/python tools/seeded_eval.py "$PWD/seeded/$n" "$p" "$n" --no-tests --head 2>&1 | /venv/bin/python -c "$show" && continue
+    echo "   $n: benign or not applicable on HEAD, re-evaluating on its recorded base"
+  fi
+  /venv/bin/python tools/seeded_eval.py "$PWD/seeded/$n" "$p" "$n" --no-tests 2>&1 | /venv/bin/python -c "$show"
 done
